@@ -678,10 +678,12 @@ def sequences(max_len: int) -> list[tuple[str, ...]]:
         seqs += list(itertools.product(FIELD_KINDS, repeat=n))
     if max_len >= 2:
         seqs += list(itertools.product(TRIPLE_KINDS, repeat=3))
+    if max_len >= 2:
+        seqs += [q_ for q_ in itertools.product(["u8", "u32", "dyn", "u8:3", "u16:4", "u16:12", "i24:4"], repeat=4) if sum(":" in k_ for k_ in q_) >= 2]
     if max_len >= 3:
         seqs += [t_ for t_ in itertools.product(FIELD_KINDS, repeat=3) if not all(k_ in TRIPLE_KINDS for k_ in t_) and sum(k_ in TRIPLE_KINDS for k_ in t_) >= 2]
     if max_len >= 4:
-        seqs += list(itertools.product(["u8", "st", "dyn", "u8:3", "u8:5", "u16:4", "u16:12", "i24:4"], repeat=4))
+        seqs += [q_ for q_ in itertools.product(["u8", "st", "dyn", "u8:3", "u8:5", "u16:4", "u16:12", "i24:4", "u32", "e16:4"], repeat=4) if sum(":" in k_ for k_ in q_) < 2 or "st" in q_ or "u8:5" in q_ or "e16:4" in q_]
     t = kinds()
     seqs += [s for s in LONGER if all(n in t for n in s)]
     return seqs
